@@ -30,6 +30,9 @@ type XCall struct {
 	Arg    int  `json:"arg"`
 	Remove bool `json:"remove,omitempty"`
 	Rounds int  `json:"rounds"`
+	// Probe: this goroutine only reads: Rounds*40 Has calls on set Recv for values it does not hold (each takes the
+	// slow path through the set's mutex while the layout is amended) and for values it holds
+	Probe bool `json:"probe,omitempty"`
 }
 
 func RunCross(c XCase) pbt.Outcome {
@@ -61,6 +64,7 @@ func RunCross(c XCase) pbt.Outcome {
 		gained := make([]atomic.Int64, len(sets))
 		lost := make([]atomic.Int64, len(sets))
 		var finished atomic.Int32
+		var probeBad atomic.Bool
 		var gate atomic.Int32
 		var wg sync.WaitGroup
 		for _, k := range c.Calls {
@@ -71,6 +75,15 @@ func RunCross(c XCase) pbt.Outcome {
 				gate.Add(1)
 				for int(gate.Load()) < len(c.Calls) {
 					runtime.Gosched()
+				}
+				if k.Probe {
+					for r := 0; r < k.Rounds*40; r++ {
+						if sets[k.Recv].Has(900000 + r%5) {
+							probeBad.Store(true)
+						}
+					}
+					finished.Add(1)
+					return
 				}
 				for r := 0; r < k.Rounds; r++ {
 					if k.Remove {
@@ -98,6 +111,31 @@ func RunCross(c XCase) pbt.Outcome {
 			}
 		}
 		wg.Wait()
+		if probeBad.Load() {
+			return pbt.Fail("repetition %d: Has reported a value that no set ever held (%s)", rep, describeCalls(c.Calls))
+		}
+		// a set that nobody modifies (only an argument, or only probed) is a constant: every AddSet(recv, arg) with such an
+		// arg that has completed leaves recv holding all of arg, provided nothing is ever removed from recv
+		modified := make([]bool, len(sets))
+		removedFrom := make([]bool, len(sets))
+		for _, k := range c.Calls {
+			if !k.Probe {
+				modified[k.Recv] = true
+				if k.Remove {
+					removedFrom[k.Recv] = true
+				}
+			}
+		}
+		for _, k := range c.Calls {
+			if k.Probe || k.Remove || modified[k.Arg] || removedFrom[k.Recv] || k.Rounds == 0 {
+				continue
+			}
+			for v := range before[k.Arg] {
+				if !sets[k.Recv].Has(v) {
+					return pbt.Fail("repetition %d: S%d.AddSet(S%d) returned, S%d was never modified and nothing is ever removed from S%d, but member %d of S%d is missing from S%d (%s)", rep, k.Recv, k.Arg, k.Arg, k.Recv, v, k.Arg, k.Recv, describeCalls(c.Calls))
+				}
+			}
+		}
 		// conservation per set
 		for i, s := range sets {
 			n := 0
@@ -163,6 +201,10 @@ func describeCalls(cs []XCall) string {
 		if k.Remove {
 			op = "RemoveSet"
 		}
+		if k.Probe {
+			s += fmt.Sprintf("Has-prober on S%d x%d", k.Recv, k.Rounds*40)
+			continue
+		}
 		s += fmt.Sprintf("S%d.%s(S%d) x%d", k.Recv, op, k.Arg, k.Rounds)
 	}
 	return s
@@ -171,7 +213,7 @@ func describeCalls(cs []XCall) string {
 var specCross = pbt.Register(&pbt.Spec[XCase]{
 	Property: "C05", Name: "C05.cross",
 	Rule: "E4 free-running: 2..3 concurrent sets (0..40 members each, some added after an observation so that the layout is amended) used as each other's arguments at the same time: 2..4 goroutines each run S_i.AddSet(S_j) or S_i.RemoveSet(S_j) 1..30 times " +
-		"(i = j allowed), 12 repetitions on fresh sets; oracle: nobody deadlocks (every unfinished goroutine seen in a mutex wait on three looks = violation), per set: final size = initial + reported gains - reported losses, " +
+		"(i = j allowed), or one goroutine runs S0.AddSet(S1) while the others only probe S1 with Has (a set nobody modifies is a constant: S0 must hold all of it afterwards), 12 repetitions on fresh sets; oracle: nobody deadlocks (every unfinished goroutine seen in a mutex wait on three looks = violation), per set: final size = initial + reported gains - reported losses, " +
 		"with adds only no member is lost, and no value appears that no set ever held; non-trivial = >=2 goroutines",
 	Gen: func(t *rapid.T) XCase {
 		n := rapid.IntRange(2, 3).Draw(t, "sets")
@@ -190,6 +232,14 @@ var specCross = pbt.Register(&pbt.Spec[XCase]{
 			c.Init, c.Late = append(c.Init, init), append(c.Late, late)
 		}
 		g := rapid.IntRange(2, 4).Draw(t, "goroutines")
+		if rapid.IntRange(0, 2).Draw(t, "constant-argument") == 1 {
+			// S0 takes in a set that is only read meanwhile (probed with Has by others)
+			c.Calls = append(c.Calls, XCall{Recv: 0, Arg: 1, Rounds: rapid.SampledFrom([]int{1, 3, 30}).Draw(t, "rounds")})
+			for i := 1; i < g; i++ {
+				c.Calls = append(c.Calls, XCall{Recv: 1, Probe: true, Rounds: rapid.SampledFrom([]int{1, 3, 30}).Draw(t, "rounds")})
+			}
+			return c
+		}
 		for i := 0; i < g; i++ {
 			c.Calls = append(c.Calls, XCall{Recv: rapid.IntRange(0, n-1).Draw(t, "recv"), Arg: rapid.IntRange(0, n-1).Draw(t, "arg"),
 				Remove: rapid.IntRange(0, 3).Draw(t, "remove") == 2, Rounds: rapid.SampledFrom([]int{1, 3, 30}).Draw(t, "rounds")})
